@@ -376,6 +376,8 @@ def finding_key(f, req, got):
     i = req.get("input", {})
     if req.get("kind") == "describe":
         return "C19:describe-packets-duplicate-rows" if 1 <= i.get("n", 0) <= 9 else f"C19:describe:n={i.get('n')}"
-    if i.get("i") == i.get("n"):
+    if req.get("kind") == "describe-e2e":
+        return "C19:describe-e2e:" + f["label"].split(":")[0][:40]
+    if i.get("i") is not None and i.get("i") == i.get("n"):
         return "C19:parse-index-equal-to-count-IndexError"
     return f"C19:parse:{f['label'][:40]}"
